@@ -201,7 +201,7 @@ fn process_spcr_block<H: Host>(emulator: &mut Emulator<H>, machine_id: u32, bloc
     // chBorder
     // Setting the border after the out to 0xfe above because that too
     // sets the border color.
-    emulator.controller.border_color = ZXColor::from_bits(block_data[0]);
+    emulator.controller.border_color = ZXColor::from_bits(block_data[0] & 0x07);
 }
 
 // Process ZXSTAYBLOCK (AY00)
